@@ -79,3 +79,14 @@ fn main() {
         std::fs::write(p, serde_json::to_string_pretty(&st.to_json()).unwrap()).unwrap();
     }
 }
+
+/// sub-second part (nanoseconds) of the block time of a block, decided by its height: uneven, sometimes close to 0 or to one second
+pub fn subsec(height: u64) -> u64 {
+    let x = height.wrapping_mul(0x9E37_79B9_7F4A_7C15).rotate_left(23) ^ 0xD1B5_4A32_D192_ED03;
+    match x % 7 {
+        0 => 0,
+        1 => 999_999_999,
+        2 => 1,
+        _ => (x >> 8) % 1_000_000_000,
+    }
+}
